@@ -17,7 +17,8 @@ def pairing(ctx, rule):
     ok = any(has_fact(b, nb, {}, ("false", "js_identifiers::is_valid_javascript_identifier(arg3)", None)) for nb in nones)
     ctx.check(ok, rule, fn, "not-identifier->None", "nothing is returned when the given name is not a JavaScript identifier")
     its = [sh for l in sorted(b.var_names) for sh, _, _ in q.def_shapes(b, l, {}) if sh.startswith("Iterator::peekable(")]
-    ctx.check(its == ["Iterator::peekable(Iterator::take(SourceView::rev_token_iter(arg1,arg2),128))"], rule, fn, "window:128", "the walk goes backwards from the looked-up token over at most 128 tokens", detail=str(its))
+    REVLIT = "RevTokenIter{sv:arg1,token:Option::Some{0:arg2},source_line:Option::None{}}"
+    ctx.check(its in (["Iterator::peekable(Iterator::take(SourceView::rev_token_iter(arg1,arg2),128))"], ["Iterator::peekable(Iterator::take(%s,128))" % REVLIT]), rule, fn, "window:128", "the walk goes backwards from the looked-up token over at most 128 tokens", detail=str(its))
     NEXT0 = "try(Iterator::next(var:Peekable<Take<RevTokenIter<>>>))"
     tok = [l for l in sorted(b.var_names) if l > b.arg_count and [sh for sh, _, _ in q.def_shapes(b, l, {})] == [NEXT0 + ".0"]]
     ident = [l for l in sorted(b.var_names) if [sh for sh, _, _ in q.def_shapes(b, l, {})] == [NEXT0 + ".1"]]
@@ -173,8 +174,11 @@ def strip_shape(ctx, rule):
 
 def fn_pf(ctx, rule):
     paths = [GOFN, REV, STRIP, "js_identifiers::is_valid_start", "js_identifiers::is_valid_continue", "js_identifiers::is_valid_javascript_identifier", "js_identifiers::get_javascript_token",
-             "sourceview::SourceView::rev_token_iter", "types::SourceMap::get_original_function_name", "types::SourceMapIndex::get_original_function_name"]
+             "types::SourceMap::get_original_function_name", "types::SourceMapIndex::get_original_function_name"]
     bodies = [ctx.body(p) for p in paths]
+    helper = ctx.facts.body("sourceview::SourceView::rev_token_iter", required=False)  # a one-line constructor helper; may be inlined into its only caller
+    if helper is not None:
+        bodies.append(helper)
     for p in ("js_identifiers::is_valid_javascript_identifier", "types::SourceMap::get_original_function_name", "types::SourceMapIndex::get_original_function_name"):
         bodies += list(ctx.facts.closures_of(p))
     pf.check_bodies(ctx, rule, bodies)
